@@ -87,10 +87,13 @@ def fields_with_shapes(rng, kind, rank):
     if kind == "Conv2d":
         return {"weight": [rng.randrange(1, 3), rng.randrange(1, 3), rng.randrange(1, 4), rng.randrange(1, 4)],
                 "bias": [ax() for _ in range(rank % 3)]}
+    if kind in ("SumPool2d", "AvgPool2d"):
+        # array-valued hyper-parameters are array-valued fields too
+        return {"kernel_size": [2], "stride": [2], "padding": [2]}
     raise ValueError(kind)
 
 
-KINDS = list(gen.ELEMENTWISE) + ["CubaLIF", "Affine", "Linear", "Conv1d", "Conv2d"]
+KINDS = list(gen.ELEMENTWISE) + ["CubaLIF", "Affine", "Linear", "Conv1d", "Conv2d", "SumPool2d", "AvgPool2d"]
 
 
 def run(ctx):
@@ -113,6 +116,8 @@ def run(ctx):
             ctx.count("pattern_%s" % pattern)
             for f, sh in shapes.items():
                 d = dt
+                if kind in ("SumPool2d", "AvgPool2d") and np.dtype(dt).kind not in "iu":
+                    d = ["|i1", "<i2", "<i4", "<i8", "|u1", "<u2", "<u4", "<u8"][(DTYPES.index(dt) + rank) % 8]
                 if kind == "CubaLIF" and np.dtype(dt).kind not in "fc":
                     d = "<f8" if f == "v_threshold" else dt
                 kw.append([f, arr_recipe(rng, sh, d, layout if len(sh) >= 1 else None, special, pattern)])
